@@ -424,7 +424,7 @@ func (fc *FnCtx) edge(to *ssa.BasicBlock, cond Term) {
 	}
 	if from != nil {
 		for _, li := range fc.loopList {
-			if li.Spec != nil && li.Spec.Exhaustive && li.Blocks[from] && !li.Blocks[to] && from != li.Header && !fc.insideLoopSyntax(li, to) {
+			if li.Spec != nil && li.Spec.Exhaustive && (li.Blocks[from] || fc.insideLoopSyntax(li, from)) && !li.Blocks[to] && from != li.Header && !fc.insideLoopSyntax(li, to) {
 				fc.assert("exhaustive", fmt.Sprintf("%s:loop%d.noearlyexit#%d", fc.name, li.Ord, fc.nextCount(fmt.Sprintf("ex%d", li.Ord))), Not(cond), "the loop is left only when its condition fails (no break/goto out of it)", li.MinPos, false)
 			}
 		}
